@@ -7,6 +7,7 @@ import (
 	"os"
 
 	"verif/engines/codec"
+	"verif/engines/limits"
 	"verif/engines/mount"
 	"verif/engines/route"
 	"verif/engines/stress"
@@ -23,6 +24,7 @@ type entry struct {
 var registry = map[string]entry{
 	"C01": {"route", "exploration", route.RunC01, route.Replay},
 	"C02": {"route", "exploration", route.RunC02, route.Replay},
+	"C08": {"limits", "exploration", limits.RunC08, limits.Replay},
 	"C12": {"stress", "exploration", stress.RunC12, nil},
 	"C13": {"stress", "exploration", stress.RunC13, nil},
 	"C16": {"route", "exploration", route.RunC16, route.ReplayC16},
